@@ -217,7 +217,7 @@ def run(ctx):
 
             def work(i):
                 try:
-                    barrier.wait(timeout=30)
+                    barrier.wait(timeout=180)
                     results[i] = run_history(classes_[i], exprs, cons, hists[i])
                 except BaseException as ex:  # noqa
                     errors[i] = repr(ex)
@@ -225,7 +225,7 @@ def run(ctx):
             for t in threads:
                 t.start()
             for t in threads:
-                t.join(timeout=300)
+                t.join(timeout=900)
             sys.setswitchinterval(old_interval)
             for i in range(T):
                 ctx.count()
